@@ -31,9 +31,8 @@ func genC12(r *sim.Rand, tier string) *sim.Case {
 			cycles++
 		case x < 35:
 			m := GenMaint(r)
-			if m.K == "advance" && m.A > 1000 {
-				m.A = 100
-			}
+			// (the clock may pass the 5 s / 2 min expiry of transactional entries: an expired
+			// version still hides older ones and must survive the reopen like any other)
 			c.Ops = append(c.Ops, m)
 		default:
 			switch api {
